@@ -11,7 +11,7 @@ one underscore) is replaced by the helper's body, when that can be done without 
     position (guard clauses are rewritten into if/else), otherwise the call is left alone;
   * parameters are substituted when the argument is a plain name / attribute / constant and the helper does not assign the parameter,
     otherwise bound to a local first; helper locals that clash with names of the host are renamed;
-  * helpers the rule set refers to by name (`KEEP`: the private routines that exist in the pinned tree) are never inlined, nor are
+  * helpers the rule set refers to by name (`KEEP`: (class, name) of the private routines of the pinned tree) are never inlined, nor are
     generators, recursive helpers, helpers with nested functions, decorators other than @staticmethod, or *args / **kwargs.
 
 Inlined statements get line numbers between the call's line and the next one (call line + k / 10000), so that rules which order
@@ -22,7 +22,10 @@ from __future__ import annotations
 import ast
 import copy
 
-KEEP = {"_add_message_unsorted", "_apply_rest", "_construct_dictionary", "_fill_dictionary_entry", "_split_token", "_iterate_messages"}
+# (class, name) of the private routines of the pinned tree that rules refer to by name; a new helper that merely shares a name is not kept
+KEEP = {("AbsoluteSequence", "_add_message_unsorted"), ("RelativeSequence", "_add_message_unsorted"), ("AbstractSequence", "_add_message_unsorted"),
+        ("MultiTrackLargeVocabularyNotelikeTokeniser", "_construct_dictionary"), ("MultiTrackLargeVocabularyNotelikeTokeniser", "_split_token"),
+        ("Sequence", "_fill_dictionary_entry")}
 MAX_STATEMENTS = 80
 
 
@@ -30,8 +33,8 @@ class NotInlinable(Exception):
     pass
 
 
-def _is_private(name: str) -> bool:
-    return name.startswith("_") and not name.startswith("__") and name not in KEEP
+def _is_private(name: str, cls: str | None = None) -> bool:
+    return name.startswith("_") and not name.startswith("__") and (cls, name) not in KEEP
 
 
 def _simple(e: ast.AST) -> bool:
@@ -83,10 +86,21 @@ class _Helper:
         if len(b) == 2 and isinstance(b[0], ast.Assign) and len(b[0].targets) == 1 and isinstance(b[0].targets[0], ast.Name) \
                 and isinstance(b[1], ast.Return) and isinstance(b[1].value, ast.Name) and b[1].value.id == b[0].targets[0].id:
             self.body = [ast.copy_location(ast.Return(value=b[0].value), b[1])]
+        elif len(b) == 2 and isinstance(b[0], ast.Assign) and len(b[0].targets) == 1 and isinstance(b[0].targets[0], ast.Name) \
+                and isinstance(b[1], ast.Return) and b[1].value is not None \
+                and sum(1 for x in ast.walk(b[1].value) if isinstance(x, ast.Name) and x.id == b[0].targets[0].id) == 1 \
+                and not any(isinstance(x, (ast.Lambda, ast.GeneratorExp, ast.ListComp, ast.SetComp, ast.DictComp, ast.IfExp, ast.BoolOp)) for x in ast.walk(b[1].value)):
+            # `t = e; return g(t)` with t read once (and always): the expression helper `return g(e)`
+            name, val = b[0].targets[0].id, b[0].value
+
+            class _S(ast.NodeTransformer):
+                def visit_Name(self2, x):
+                    return ast.copy_location(copy.deepcopy(val), x) if x.id == name and isinstance(x.ctx, ast.Load) else x
+            self.body = [ast.copy_location(ast.Return(value=_S().visit(copy.deepcopy(b[1].value))), b[1])]
 
     @staticmethod
-    def eligible(fn: ast.FunctionDef) -> bool:
-        if not _is_private(fn.name):
+    def eligible(fn: ast.FunctionDef, cls: str | None = None) -> bool:
+        if not _is_private(fn.name, cls):
             return False
         if any(not (isinstance(d, ast.Name) and d.id == "staticmethod") for d in fn.decorator_list):
             return False
@@ -162,11 +176,11 @@ class Inliner:
         self.helpers: dict[tuple[str | None, str], _Helper] = {}
         self.count = 0
         for n in tree.body:
-            if isinstance(n, ast.FunctionDef) and _Helper.eligible(n):
+            if isinstance(n, ast.FunctionDef) and _Helper.eligible(n, None):
                 self.helpers[(None, n.name)] = _Helper(n, None)
             elif isinstance(n, ast.ClassDef):
                 for m in n.body:
-                    if isinstance(m, ast.FunctionDef) and _Helper.eligible(m):
+                    if isinstance(m, ast.FunctionDef) and _Helper.eligible(m, n.name):
                         self.helpers[(n.name, m.name)] = _Helper(m, n.name)
 
     # ------------------------------------------------------------------------------------------ resolution
